@@ -32,7 +32,7 @@ from unittest import mock
 
 import core
 
-READY = False
+READY = True
 MANIFEST = dict(
     technique='Lean 4 theorems over a transcribed model of the invocation rendez-vous (interleaving semantics of the id '
               'lock for any number of threads and schedules; induction over arbitrary event lists on provider and '
@@ -982,9 +982,10 @@ def script_from_canon(canon):
     return [ev(c) for c in canon], specs
 
 
-def run_script(ctx, events, specs, modes, model_cases, check_parts=True):
+def run_script(ctx, events, specs, modes, model_cases, check_parts=True, shrink=True):
     """execute one script on a fresh rig; oracle; returns the model lines + implementation answers"""
     rig = Rig(n_consumers=2)
+    n_fail = len(ctx.failures)
     try:
         for h, direct in modes.items():
             if h in rig.ops:
@@ -994,6 +995,12 @@ def run_script(ctx, events, specs, modes, model_cases, check_parts=True):
         rig.drain()
         provider_oracle(ctx, rig, specs, canon)
         consumer_oracle(ctx, rig, specs, canon, window_ok=check_parts)
+        if shrink and len(ctx.failures) > n_fail and len(canon['events']) > 1:
+            done_sigs = {}
+            for f in ctx.failures[n_fail:]:
+                if f['signature'] not in done_sigs:
+                    done_sigs[f['signature']] = shrink_script(ctx, canon, f['signature'])
+                f['case'] = done_sigs[f['signature']]
         plines = [f'preset {rig.cap}'] + rig.plines + [rig.pstate_line()]
         pimpl = ['ok'] + rig.pimpl + [rig.pstate_impl()]
         model_cases.append((canon, 'provider', plines, pimpl))
@@ -1010,6 +1017,47 @@ def run_script(ctx, events, specs, modes, model_cases, check_parts=True):
         return rig, canon, done_tx
     finally:
         rig.close()
+
+
+def _sub_canon(canon_events, keep):
+    """the script restricted to the top-level events with index in `keep`"""
+    return [e for i, e in enumerate(canon_events) if i in keep]
+
+
+def shrink_script(ctx, canon, signature, budget=40):
+    """ddmin over the top-level events: the smallest sub-script on which the oracle still reports `signature`"""
+    modes = {h: True for h in canon['modes']}
+    events = canon['events']
+
+    def fails(evs):
+        scratch = core.Ctx(ctx.prop, ctx.tier, ctx.seed)
+        scratch.driver_ok = False
+        try:
+            e2, s2 = script_from_canon(evs)
+            run_script(scratch, e2, s2, modes, [], shrink=False)
+        except Exception:  # noqa: BLE001
+            return False
+        return any(f['signature'] == signature for f in scratch.failures)
+    cur = list(range(len(events)))
+    n = 2
+    runs = 0
+    while len(cur) >= 2 and runs < budget:
+        chunk = max(1, len(cur) // n)
+        subsets = [cur[i:i + chunk] for i in range(0, len(cur), chunk)]
+        reduced = False
+        for sub in subsets:
+            comp = [i for i in cur if i not in sub]
+            runs += 1
+            if comp and fails(_sub_canon(events, set(comp))):
+                cur, n, reduced = comp, max(n - 1, 2), True
+                break
+            if runs >= budget:
+                break
+        if not reduced:
+            if n >= len(cur):
+                break
+            n = min(len(cur), n * 2)
+    return {'modes': canon['modes'], 'events': _sub_canon(events, set(cur))}
 
 
 def compare_model(ctx, model_cases):
